@@ -10,6 +10,8 @@ var Plans = map[string][]PlanItem{
 	"C04": {{Scen: "world", Quick: 3000, Thorough: 150000}},
 	"C05": {{Scen: "nav", Quick: 12000, Thorough: 600000}},
 	"C06": {{Scen: "stored", Quick: 5000, Thorough: 300000}},
+	"C07": {{Scen: "docvalues", Quick: 3000, Thorough: 200000}},
+	"C08": {{Scen: "dictionary", Quick: 8000, Thorough: 500000}},
 	"C11": {{Scen: "world", Quick: 3000, Thorough: 150000}},
 	"C16": {{Scen: "world", Quick: 4000, Thorough: 250000}},
 }
